@@ -55,27 +55,76 @@ def closures_of(prog, path):
     return out
 
 
+def family(prog, root, depth=2):
+    """root function, the functions and closures nested in it, and the local (same file) functions they call, to `depth`"""
+    g = prog.fn(root)
+    if g is None:
+        return []
+    out = [root]
+    frontier = [root]
+    for _ in range(depth + 1):
+        nxt = []
+        for p in frontier:
+            for q, h in prog.fns.items():
+                if q.startswith(p + "::") and q not in out:
+                    out.append(q)
+                    nxt.append(q)
+            h = prog.fn(p)
+            if h is None:
+                continue
+            for b, t in h.calls():
+                c = t.get("res") or t.get("fn") or ""
+                cf = prog.fn(c)
+                if cf is not None and cf.file == g.file and c not in out:
+                    out.append(c)
+                    nxt.append(c)
+        frontier = nxt
+    return out
+
+
+def family_bodies(prog, root):
+    out = []
+    for p in family(prog, root):
+        h = prog.hir.get(p)
+        if h:
+            out.append(h["body"])
+    return out
+
+
+def all_classes(bodies):
+    """character classes of the closures handed to Iterator::all in these bodies, in source order"""
+    out = []
+    for body in bodies:
+        for c in H.nodes(body, "mcall"):
+            if str(c[1]).endswith("Iterator::all"):
+                for a in c[3]:
+                    if H.tag(a) == "closure":
+                        cls = first_matches_class(a[3])
+                        if cls:
+                            out.append(cls)
+    return out
+
+
 def run(prog):
     obs = []
-    # ---- TOML bare keys
-    p = M + "toml::bare_allowed"
-    f = prog.fn(p)
+    # ---- TOML bare keys: the predicate under which escape_key_toml_buf writes the key raw (wherever it is spelled: a helper such as
+    # bare_allowed, or inline)
+    W = M + "toml::escape_key_toml_buf"
+    g = prog.fn(W)
+    bodies = family_bodies(prog, W)
     key = "toml:bare-key-class"
-    cls = None
-    for body in closures_of(prog, p):
-        cls = cls or first_matches_class(body)
-    if cls is None:
-        obs.append(bad(RULE, key, site(f) if f else "", "character class of bare_allowed not found"))
+    classes = all_classes(bodies)
+    if not classes:
+        obs.append(bad(RULE, key, site(g) if g else "", "no character class (`.all(|c| matches!(c, ..))`) found in the bare-key test of escape_key_toml_buf"))
     else:
+        cls = classes[0]
         extra = sorted(chr(c) for c in cls - TOML_BARE)
-        obs.append(ok(RULE, key, site(f), "bare keys use %d characters, all within A-Za-z0-9_-" % len(cls)) if not extra else
-                   bad(RULE, key, site(f), "bare_allowed accepts %s, which TOML does not allow in a bare key" % extra))
-    h = prog.hir.get(p)
+        obs.append(ok(RULE, key, site(g), "bare keys use %d characters, all within A-Za-z0-9_-" % len(cls)) if not extra else
+                   bad(RULE, key, site(g), "the bare-key test accepts %s, which TOML does not allow in a bare key" % extra))
     key = "toml:bare-key-nonempty"
-    nonempty = h is not None and any(True for _ in H.calls(h["body"], suffix="::is_empty"))
-    obs.append(ok(RULE, key, site(f), "an empty key is not bare") if nonempty else
-               bad(RULE, key, site(f) if f else "", 'bare_allowed accepts the empty string: `std.manifestToml({"": 1})` would emit ` = 1`'))
-    g = prog.fn(M + "toml::escape_key_toml_buf")
+    nonempty = any(True for body in bodies for _ in H.calls(body, suffix="::is_empty"))
+    obs.append(ok(RULE, key, site(g), "an empty key is not bare") if nonempty else
+               bad(RULE, key, site(g) if g else "", 'the bare-key test accepts the empty string: `std.manifestToml({"": 1})` would emit ` = 1`'))
     key = "toml:quoted-key-escaper"
     cs = [(t.get("res") or t.get("fn") or "") for b, t in g.calls()] if g else []
     obs.append(ok(RULE, key, site(g), "non-bare keys go through a string escaper (its coverage is checked under quoted:*)") if any("escape_string" in c for c in cs) else
@@ -83,54 +132,39 @@ def run(prog):
     # ---- YAML plain scalars
     p = M + "yaml::bare_safe"
     f = prog.fn(p)
-    h = prog.hir.get(p)
+    bodies = family_bodies(prog, p)
     key = "yaml:plain-class"
-    cls = None
-    if h:
-        # the first `all(|v| matches!(..))` is the safety class
-        for body in closures_of(prog, p):
-            c = first_matches_class(body)
-            if c and (cls is None or len(c) > len(cls)):
-                cls = c
-    if cls is None:
+    classes = all_classes(bodies)
+    if not classes:
         obs.append(bad(RULE, key, site(f) if f else "", "character class of bare_safe not found"))
     else:
+        cls = max(classes, key=len)          # the safety class is the widest one; the others recognise number / date look-alikes
         extra = sorted(chr(c) for c in cls - YAML_PLAIN_SAFE)
         obs.append(ok(RULE, key, site(f), "plain scalars use %d characters, none of them a YAML indicator" % len(cls)) if not extra else
                    bad(RULE, key, site(f), "bare_safe accepts %s: YAML indicator characters in a plain scalar change the parse" % extra))
-    # reserved list and case-insensitive comparison
-    rp = p + "::is_reserved"
-    hr = prog.hir.get(rp)
-    fr = prog.fn(rp)
+    # reserved list and case-insensitive comparison (in bare_safe itself or a helper of it)
     key = "yaml:reserved-words"
     words = set()
-    if hr:
-        for body in closures_of(prog, rp):
-            for x in H.walk(body):
-                if H.tag(x) == "lit" and x[1] == "str":
-                    words.add(x[2])
-    # the list is a const item: follow `def Const` references from the body
-    if hr:
-        for body in closures_of(prog, rp):
-            for x in H.walk(body):
-                if H.tag(x) == "path" and H.tag(x[1]) == "def" and str(x[1][1]).startswith("Const"):
-                    hc = prog.hir.get(x[1][2])
-                    if hc:
-                        for y in H.walk(hc["body"]):
-                            if H.tag(y) == "lit" and y[1] == "str":
-                                words.add(y[2])
+    for body in bodies:
+        for x in H.walk(body):
+            if H.tag(x) == "path" and H.tag(x[1]) == "def" and str(x[1][1]).startswith("Const"):
+                hc = prog.hir.get(x[1][2])
+                if hc:
+                    ws = {y[2] for y in H.walk(hc["body"]) if H.tag(y) == "lit" and y[1] == "str"}
+                    if len(ws) > len(words):
+                        words = ws
     missing = sorted(w for w in YAML_RESERVED if w not in words)
-    ci = any(True for body in closures_of(prog, rp) for _ in H.calls(body, suffix="::eq_ignore_ascii_case"))
-    if hr is None:
-        obs.append(bad(RULE, key, "", "bare_safe::is_reserved not found"))
+    ci = any(True for body in bodies for _ in H.calls(body, suffix="::eq_ignore_ascii_case"))
+    if f is None:
+        obs.append(bad(RULE, key, "", "bare_safe not found"))
     else:
         probs = []
         if missing:
             probs.append("missing %s" % missing)
         if not ci:
             probs.append("the comparison is case-sensitive (YAML resolves Yes / TRUE / Null as well)")
-        obs.append(bad(RULE, key, site(fr), "YAML reserved-word test: " + "; ".join(probs)) if probs else
-                   ok(RULE, key, site(fr), "bool/null/float words are compared case-insensitively%s" % ("" if not words else " (%d words)" % len(words))))
+        obs.append(bad(RULE, key, site(f), "YAML reserved-word test: " + "; ".join(probs)) if probs else
+                   ok(RULE, key, site(f), "bool/null/float words are compared case-insensitively (%d words)" % len(words)))
     # ---- XML entities
     p = M + "xml::escape_string_xml_buf"
     f = prog.fn(p)
@@ -253,10 +287,11 @@ def run_text(prog):
             n_raw += 1
             k += 1
             key = "raw-text:%s#%d" % (short_path(path), k)
-            guarded = guard is not None and any(f[2][1] is True and f[2][0][0] == "call" and f[2][0][1] == guard for f in g.facts_at(b))
+            guarded = guard is not None and any(f[2][1] is True and strip(f[2][0])[0] == "call" and
+                                                (strip(f[2][0])[1] == guard or ("Iterator" in str(strip(f[2][0])[1]) and str(strip(f[2][0])[1]).endswith("::all"))) for f in g.facts_at(b))
             in_block = block_ok and any(g.block_dominates(m, b) for m in block_marks)
             if guarded:
-                obs.append(ok(RULE, key, site(g, t["line"]), "unescaped text `%s` is written only where %s() returned true" % (show(d)[:60], short_path(guard))))
+                obs.append(ok(RULE, key, site(g, t["line"]), "unescaped text `%s` is written only where the bare-word test (%s or its inlined class test) holds" % (show(d)[:60], short_path(guard))))
             elif in_block:
                 obs.append(ok(RULE, key, site(g, t["line"]), "line of a block scalar (after the `|` indicator)"))
             else:
